@@ -959,7 +959,7 @@ func ruleIndentShort(c *Ctx) []Obligation {
 	con = fmt.Sprintf("%s: after a short write the partial-line state follows the bytes that got out", c.FnName(m.write))
 	follows := false
 	for _, st := range c.storesToFieldDeep(m.write, m.fPartial) {
-		if st.Parent() != m.write || !dominates(m.under, st) {
+		if !dominates(m.under, st) {
 			continue
 		}
 		fromCount := false
@@ -968,6 +968,20 @@ func ruleIndentShort(c *Ctx) []Obligation {
 				fromCount = true
 			}
 		})
+		// the store may sit in a private helper that is handed the count and decides by it where to stop
+		if st.Parent() != m.write {
+			if h := exactHelper(st.Parent()); h != nil {
+				for _, site := range h.sites {
+					for _, a := range site.Common().Args {
+						operandClosure(a, func(x ssa.Value) {
+							if x == cnt && cnt != nil {
+								fromCount = true
+							}
+						})
+					}
+				}
+			}
+		}
 		if fromCount {
 			follows = true
 			at = st
@@ -978,5 +992,80 @@ func ruleIndentShort(c *Ctx) []Obligation {
 	} else {
 		obs = append(obs, bad(R, con, c.InstrPos(m.under), "the flag is set from the output that was intended and never corrected: after a short write the caller continues with the bytes that were not counted, and they come out without the indent of their line, or with an indent in the middle of a line"))
 	}
+	// (c) the number of indent bytes an earlier short write got out is consumed by this write: once it has been read,
+	// every way out of Write passes a store of it (0, or the new remainder) — a stale value makes the next write
+	// drop bytes of the caller's text
+	iwT := namedOf(derefType(m.write.Signature.Recv().Type()))
+	var fCut *types.Var
+	if iwT != nil {
+		fCut = FieldVar(iwT, "cut")
+	}
+	if fCut != nil {
+		con = fmt.Sprintf("%s: the pending indent remainder is stored again on every way out once it was read", c.FnName(m.write))
+		var read ssa.Instruction
+		eachInstr(m.write, func(in ssa.Instruction) {
+			if v, isV := in.(ssa.Value); isV && read == nil {
+				if _, f, _ := loadedField(v); f == fCut {
+					read = in
+				}
+			}
+		})
+		if read == nil {
+			o := ok(R, con, c.Pos(m.write.Pos()), "Write does not read the remainder")
+			o.Trivial = true
+			obs = append(obs, o)
+		} else {
+			// blocks that store the field for certain: a store in Write itself, or a call of a private helper in
+			// which a store lies on every path
+			storing := map[*ssa.BasicBlock]bool{}
+			for _, st := range c.storesToFieldDeep(m.write, fCut) {
+				if st.Parent() == m.write {
+					storing[st.Block()] = true
+					continue
+				}
+				if onEveryPath(st) {
+					for _, l := range liftAll(st, m.write, 0) {
+						storing[l.Block()] = true
+					}
+				}
+			}
+			leak := ""
+			for _, b := range m.write.Blocks {
+				r, isR := b.Instrs[len(b.Instrs)-1].(*ssa.Return)
+				if !isR || b == m.write.Recover || !read.Block().Dominates(b) {
+					continue
+				}
+				if storing[read.Block()] && storeAfter(read, fCut) {
+					continue
+				}
+				if storing[b] || !blockReaches(read.Block(), b, storing) {
+					continue
+				}
+				leak = c.InstrPos(r)
+			}
+			if leak == "" {
+				obs = append(obs, ok(R, con, c.InstrPos(read), "every return that follows the read is preceded by a store of the field on every path"))
+			} else {
+				obs = append(obs, bad(R, con, leak, "a return can be reached from the read of the remainder without any store of it: after two short writes in a row (the first stops inside an indent, the retry past it) the stale remainder makes the next Write cut bytes off the caller's text and still report them as written"))
+			}
+		}
+	}
 	return obs
+}
+
+// storeAfter: the block of `read` stores field f after the read.
+func storeAfter(read ssa.Instruction, f *types.Var) bool {
+	seen := false
+	for _, in := range read.Block().Instrs {
+		if in == read {
+			seen = true
+			continue
+		}
+		if st, isS := in.(*ssa.Store); isS && seen {
+			if _, ff, _ := fieldOf(st.Addr); ff == f {
+				return true
+			}
+		}
+	}
+	return false
 }
